@@ -20,6 +20,7 @@ class Gen:
         self.nprobe = 0
         self.named = 0
         self.targets = dict(targets or {})  # comprehension targets in scope: name -> type
+        self.structured = True  # tuple/nested/starred comprehension targets over zip()/enumerate() (address-bearing reprs)
         self.used = set()
         self.allow = allow  # optional set of construct names to allow
         self.features = set()
@@ -108,7 +109,17 @@ class Gen:
     def t_bool(self, depth):
         if depth <= 0:
             return "%s %s %s" % (self.t_int(0), self.pick(CMP_OPS), self.t_int(0))
-        k = self.draw(st.integers(0, 16))
+        k = self.draw(st.integers(0, 17 if self.structured else 16))
+        if k == 17:
+            self.features.add("all-any")
+            head, types = self.structured_clause(depth - 1)
+            saved = dict(self.targets)
+            self.targets.update(types)
+            try:
+                elt = self.expr("bool", max(depth - 1, 0))
+            finally:
+                self.targets = saved
+            return "all(%s %s)" % (elt, head)
         if k == 12:
             nm = self.name("int")
             return self.pick(["(%s is None)", "(ident(%s) is None)", "(%s is not None)"]) % nm
@@ -204,7 +215,16 @@ class Gen:
     def t_ilist(self, depth):
         if depth <= 0:
             return self.name("ilist")
-        k = self.draw(st.integers(0, 7))
+        k = self.draw(st.integers(0, 8 if self.structured else 7))
+        if k == 8:
+            head, types = self.structured_clause(depth - 1)
+            saved = dict(self.targets)
+            self.targets.update(types)
+            try:
+                elt = self.expr("int", depth - 1)
+            finally:
+                self.targets = saved
+            return "[%s %s]" % (elt, head)
         if k == 0:
             return self.name("ilist")
         if k == 1:
@@ -293,6 +313,29 @@ class Gen:
             finally:
                 self.targets = saved
         return tgt, it, cond
+
+    def structured_clause(self, depth):
+        """A `for` clause whose target is not a single name: flat tuple, nested tuple or starred. Returns (text, {name: type}).
+
+        The names are drawn from a pool that includes parameter names (x, n): a target hides the parameter."""
+        self.features.add("comprehension")
+        self.features.add("structured-target")
+        pool = [t for t in ["y", "z", "v", "x", "n", "u"] if t not in self.targets]
+        a = self.pick(pool)
+        b = self.pick([t for t in pool if t != a])
+        c = self.pick([t for t in pool if t not in (a, b)])
+        if {a, b, c} & {"x", "n"}:
+            self.features.add("target-shadows-arg")
+        l1, l2 = self.expr("ilist", depth), self.expr("ilist", depth)
+        k = self.draw(st.integers(0, 3))
+        if k == 0:
+            return "for %s, %s in enumerate(%s)" % (a, b, l1), {a: "int", b: "int"}
+        if k == 1:
+            return "for %s, (%s, %s) in enumerate(zip(%s, %s))" % (a, b, c, l1, l2), {a: "int", b: "int", c: "int"}
+        if k == 2:
+            return "for (%s, %s), %s in zip(zip(%s, %s), %s)" % (a, b, c, l1, l2, l1), {a: "int", b: "int", c: "int"}
+        return "for %s, *%s in [%s + [%s], %s + [%s, %s]]" % (a, b, l1, self.t_int(0), l2, self.t_int(0), self.t_int(0)), {
+            a: "int", b: "ilist"}
 
     def in_target(self, tgt, typ, fn):
         saved = dict(self.targets)
@@ -383,9 +426,10 @@ GLOBAL_VALUES = {"G": 5, "GS": "gab", "GL": [4, 0, -1], "Y": 10, "H": 100}
 
 
 @st.composite
-def st_condition(draw, depth=3, probes=False, typ=None):
+def st_condition(draw, depth=3, probes=False, typ=None, structured=True):
     """Returns {'text': canonical expression text, 'params': lambda parameters, 'features': [...]}."""
     g = Gen(draw, probes=probes)
+    g.structured = structured
     typ = typ or draw(st.sampled_from(["bool", "bool", "bool", "bool", "int", "ilist", "str"]))
     text = g.expr(typ, draw(st.integers(1, depth)))
     text = canon(text)
